@@ -314,7 +314,7 @@ PROPS["C05"] = _std(
 
 def _c11_runs(tier):
     if tier == "quick":
-        cfgs = ["simd", "serial32"]
+        cfgs = ["simd", "serial32", "avx512"]
         streams = ["C02", "C03", "C04", "C07", "C08", "C09"]
         kernels = ["C01"]
     else:
@@ -323,7 +323,7 @@ def _c11_runs(tier):
         kernels = ["C01"]
     out = []
     for c in cfgs:
-        for s in streams:
+        for s in (streams if not (tier == "quick" and c == "avx512") else ["C03", "C04"]):
             for v in ("chk", "rel"):
                 out.append(R(c, v, prop=s, tier="quick", threads=4))
         if c in ("simd", "avx512"):
@@ -334,6 +334,9 @@ def _c11_runs(tier):
                 out.append(R(c, "chk", dispatch="avx2", prop=s, tier="quick", threads=4))
         for k in kernels:
             out.append(R(c, "chk", prop=k, tier=tier, threads=4))
+        if c in ("simd", "avx512"):
+            # layer (c): saturation tapes over the AVX2 formulas (in an avx512 build: forced AVX2 dispatch)
+            out.append(R(c, "chk", prop="C11c", tier=tier, threads=4, dispatch="auto" if c == "simd" else "avx2"))
         if tier != "quick":
             out.append(R(c, "chk-notables", prop="C04", tier="quick", threads=4))
     return out
@@ -343,14 +346,15 @@ PROPS["C11"] = _std(
     "model_checking",
     "(a) the request streams of the functional explorers (field/scalar/point machines, scalar-multiplication alphabets, X25519, signing/verification) are replayed on builds with overflow checks and debug assertions enabled: any panic is a violation, and order-independent reply digests must equal those of the release build of the same configuration; "
     "(b) the field register machine and the complete limb-lattice products (all limbs simultaneously at 0 / mask / documented headroom bound) run on the checked build, so every serial kernel is entered at its contract boundary with overflow checks on, and the 4-lane vector kernels are entered at their documented lane bounds with the value compared against the model (a wrapped lane changes the value). "
-    "distinct_nontrivial = distinct machine states + distinct stream digests.",
+    "(c) saturation tapes (hooks H6+H7): every AVX2 point formula from every lane pattern of saturated inputs under every answer sequence of its reducing kernels (each answer = per lane zero or the documented post-condition maximum), and whole scalar-multiplication algorithms under all-MAX / all-MIN / every single deviation; entry monitors check the documented pre-conditions, outputs the type invariants. "
+    "distinct_nontrivial = distinct machine states + distinct stream digests + tape runs.",
     "Explicit-state exploration and lattice enumeration on checked builds, differential against release builds, per backend and forced dispatch.",
     "DESIGN.md section 4, C11",
     "explicit-state BFS and limb-lattice enumeration on overflow-checked builds + checked/release digest comparison",
     _c11_runs,
     post=digest_compare,
     parallel=4,
-    level_note="Layer (c) of the design (adversarial reduction environment / saturation tapes) is not built in this round; see DESIGN.md. Decides the property for the enumerated lattice and streams only.",
+    level_note="Layer (c) (saturation tapes) covers the AVX2 vector formulas; serial and IFMA code is covered by (a)+(b) and the entry monitors on real values. Decides the property for the enumerated lattice, streams and tapes only.",
 )
 
 
